@@ -966,6 +966,9 @@ class WalletTransaction(Transaction):
             elif key_id:
                 tx_output.key_id = key_id
                 tx_output.spent = spent if spent is not None else tx_output.spent
+                if to.lock_script and not tx_output.script:
+                    # Row was created from an utxo without locking script
+                    tx_output.script = to.lock_script
             self.hdwallet._commit()
         return txidn
 
